@@ -4,6 +4,51 @@ import json
 import os
 
 BUILT = {
+    "C03": dict(
+        text="Machine-checked theorems (Coq 8.16, no axioms) over executable Q models of sample_patch_sum, PatchedSumWeights.get_array, NormalisedCounts.sample_patch_sum, CorrFunc.sample, cov_from_samples and a literal index-list model of resample_jackknife: for every matrix and patch count total-row-col+diag = recount without patch k; weight products (sum_{i!=k}u)(sum_{j!=k}v) for cross and 1/2(sum_{i!=k}w)^2 for auto (upper triangle, halved diagonal); estimator samples = documented estimator of the data with patch k deleted for every dr/rd/rr combination; covariance = (N-1)/N sum (x_k-mean)(x_k-mean)^T, symmetric, PSD, error the non-negative diagonal root; the pinned resample_jackknife provably leaves out patch N-1-k in row k (refuted; repaired in /repo) and the repaired index array is proved correct for all N. Tied on every run by symbolic traces of the real functions re-proved by ring (N in {2,3,4}, bins in {1,2}, auto/cross) and by correspondence on real containers and catalogs evaluated in Coq.",
+        note="Trusted: Coq kernel + vm_compute; python harness incl. the symbolic-trace translator (assumes traced code branches on structure only); numpy einsum/tile/triu/cov/sqrt and pandas exercised, not modelled. Sums exact on dyadic inputs; quotients within 2^-48; covariance within 2^-44 of its natural scale. max_workers=1 (row order under parallel completion is C05). Zero denominators are not compared.",
+        technique="Coq proof (induction on lists, ring/lra over Q, index arithmetic) + symbolic-trace translation re-proved by ring + differential correspondence evaluated in Coq",
+        ref="DESIGN.md §5 C03"),
+    "C04": dict(
+        text="Theorems (no axioms): landy_szalay as coded = (DD-DR-RD+RR)/RR; davis_peebles = DD/mixed-1; CorrFunc.sample applies LS iff rr exists with rd defaulting to dr, else DP with rd else dr; each term = total/(W1*W2), or total/(W^2/2) for auto; n(z)^2*dz^2*w_ss*w_pp = w_sp^2 with the sign of w_sp, which determines n(z) uniquely, absent autocorrelations count as 1; HistData.normalised and RedshiftData.normalised (nansum semantics) integrate to 1 when the norm is non-zero. Tied by symbolic traces of landy_szalay, davis_peebles, NormalisedCounts.sample_patch_sum, RedshiftData.from_corrdata (radicand), HistData.normalised, RedshiftData.normalised re-proved by ring on every run, and by correspondence on all 7 subsets of {dr,rd,rr} x auto/cross (undefined combinations compared only as 'raises').",
+        note="Trusted as for C03. sqrt is checked in squared form within 2^-47 on exact rationals of the implementation's own CorrData values; normalised(target=...) (scipy fit) is not covered; zero denominators, non-positive radicands and infinite inputs are not compared; the statement with sqrt over R was not built.",
+        technique="Coq proof (ring/field over Q) + symbolic-trace translation re-proved by ring + differential correspondence evaluated in Coq",
+        ref="DESIGN.md §5 C04"),
+    "C06": dict(
+        text="Explicit transition systems in Gallina (no axioms) for the MPI root-dispatch protocol (_mpi_root_task / _mpi_worker_task with per-worker FIFO channels, eager and synchronous sends, root fallback) and the reader/workers/writer pipeline: executable step = relation (sound and complete), termination by a measure from ANY state, progress (no deadlock) in both send modes, dispatch_exactly_once_total (for every allowed-rank set incl. none, every worker count, every schedule: each task executed once and yielded once), write_ssend_no_loss (synchronous dictionary sends: the writer stores exactly the input for every number of sending ranks); the pinned algorithms are refuted by witnesses (no task executed for max_workers=1; eager sentinel overtakes queued dictionaries). Tie: the unchanged source is run on a simulated MPI (fake mpi4py, ranks = threads, seeded wildcard matching and eager/rendezvous completion, deadlock watchdog); every communication log of iter_unordered is replayed through the Coq step function; root results of Catalog.from_dataframe, Catalog(), build_trees, auto/crosscorrelate, HistData.from_catalog and file I/O are compared with the single-process run; every rank must return.",
+        note="Partial by nature: no real MPI library is present. The simulator exhibits the MPI-standard matching semantics (per-sender FIFO, no order between senders, eager vs rendezvous, synchronising collectives) but not a real transport, eager-size limits, non-synchronising collectives or several hosts. The write-pipeline model is tied by outcomes and per-patch conservation, not by event replay. Collective call sequences are checked at run time only (mismatch = reported deadlock).",
+        technique="Coq proof (invariants + measure over transition systems, Permutation via AAC_tactics) + event-log replay of the real code under a simulated MPI inside Coq + root-result equality",
+        ref="DESIGN.md §5 C06"),
+    "C08": dict(
+        text="Theorems (no axioms) over an operation-list model of the cache-writing workloads (create, overwrite with every valid rmtree order, metadata, tree build/rebuild, HDF5 result file, .dat/.smp/.cov triple): for EVERY prefix of the operation list, every prior state and every later request, recovery yields an error, the old state or the new state (crash_safe_create/_overwrite/_metadata/_fix/_single/_triple_fix); the pinned orders are refuted by witnesses (stale binning marker over rewritten trees, 0-byte patch_ids.bin, mixed result triple; all three repaired in /repo). Tie: the strace trace of each real workload, abstracted to the model alphabet, must equal the model's op list (compared in Coq); every prefix of the real trace is materialised and handed to the real recovery code (Catalog(cache), build_trees + measurement vs fresh caches, CorrFunc.from_file, CorrData.from_files) and the outcome class compared in Coq; the full replay must reproduce the real final directory byte for byte; thorough adds real SIGKILL injection.",
+        note="Granularity is the system call (the property's quantifier); reordering below it (page cache, unsynced directory entries) is outside the model. HDF5/pickle/YAML internals exercised, not modelled; trees.pkl abstracted by unpickling. Trusted: strace parser, prefix materialiser, long-lived recovery worker.",
+        technique="Coq proof (all prefixes of operation lists, invariants) + syscall-trace conformance and per-crash-point recovery correspondence evaluated in Coq",
+        ref="DESIGN.md §5 C08"),
+    "C09": dict(
+        text="Transition-system model (no axioms) of sequential and parallel catalog creation with a fault parameter (kind x chunk position x place), two instances: the pinned algorithm (refuted: hang, foreign data, rmtree of any directory, empty centre accepted, partial cache finalised) and the repaired one, for which no_hang (no reachable stuck state for any fault, chunk count, interleaving), no_foreign_data, seq_par_same_class, overwrite_only_catalog and failed_creation_not_openable are proved. Tie: real runs in fresh interpreters (sequential and real multiprocessing with 2-3 workers, wall-clock hang bound) for every fault kind at first/middle/last chunk; outcome class, directory before/after and Catalog(cache) afterwards compared in Coq with both instances; the working tree must follow the repaired instance.",
+        note="Real OS scheduling is sampled, not enumerated; 'bounded time' is a 20 s timeout in the tie and a no-stuck-state theorem in the model. 'Not writable' is represented by a path below a regular file (harness runs as root). pandas/h5py/numpy exercised, not modelled.",
+        technique="Coq proof (reachability invariant + termination measure; vm_compute refutation witnesses) + outcome-class correspondence over real subprocess runs evaluated in Coq",
+        ref="DESIGN.md §5 C09"),
+    "C11": dict(
+        text="Theorems (no axioms): sparse pair-count codec round trip for every bins x N x N array (incl. all-zero); CorrFunc member codec for all 8 member combinations; fixed-width decimal format in integer arithmetic (|parsed - rounded| < 10^-k, k = max(0, w - ndigits - 1)); text-table codec for every nbins >= 1 (repaired reader; single-bin failure of the pinned reader refuted); configuration dictionary round trip = identity exactly when the edges are a fixed point of regeneration (endpoints exact), metadata round trip. Tie: real HDF5 / YAML / text files for every codec: x == from_file(to_file(x)) and equal downstream sample(); text files compared token by token with the model's predicted parsed values in Coq; Configuration edges bit-identical after the YAML round trip for linear / comoving / logspace / custom edges.",
+        note="h5py / PyYAML / np.loadtxt tokenising / float formatting exercised, not modelled; the edge generator is an oracle (determinism checked per case). Catalog cache round trip is C02's.",
+        technique="Coq proof (induction, nia over Z/Q) + real-file round-trip correspondence evaluated in Coq",
+        ref="DESIGN.md §5 C11"),
+    "C12": dict(
+        text="Theorems (no axioms): metadata counts; every record within the stored radius (maximum distance) and the radius attained; repaired pairing of given centres with patches returns ids 0..N-1 with centre i the i-th given one (plain zip refuted: an empty centre shifts all later centres; repaired in /repo); the consistency guard accepts only equal id sets and centre offsets <= rtol*radius, hence refuses offsets beyond the radius for rtol <= 1. Tie: real catalogs in all three patch modes (centres in any order, from another catalog, named ids, generated centres, single-object patches): stored metadata vs model on the implementation's own distance table, centre order bit-exact, re-assignment of every record to the reported centres by exact rational chords, real PatchLinkage.from_catalogs on aligned / permuted / shifted / differing-id catalog pairs vs the guard model — evaluated in Coq.",
+        note="Distances record->centre are the implementation's own values (accuracy: C14); treecorr k-means is an oracle; weights dyadic.",
+        technique="Coq proof (max of a list, zip/seq lemmas) + correspondence evaluated in Coq",
+        ref="DESIGN.md §5 C12"),
+    "C14": dict(
+        text="Machine-checked theorems over R: to3d is a unit vector; from3d(to3d) = id for ra in [0,2pi), |dec| < pi/2 (RA -> 0 at the poles); RA in [0,2pi), Dec in [-pi/2,pi/2] for every vector; chord and angle mutually inverse and strictly increasing; |u-v|^2 = 2-2u.v = (2 sin(theta/2))^2 and the code's separation equals the great-circle angle; triangle inequality of the great-circle angle (Gram determinant); the mean is the direction of the weighted vector sum, invariant under weight scaling; inverse-trig elimination lemmas. Tie on every run: the real to_3d, from_3d, distance, mean, AngularDistances.to_3d/from_3d on ~300 (quick) / ~3900 (thorough) samples (poles, RA wrap, separations 1e-12..pi-1e-9, near-degenerate means); one goal |model(x) - y| <= bound per sample over exact rational literals closed by the Interval tactic; RA range, inverse round trips and order preservation evaluated in Coq over Q.",
+        note="Axioms under Props/C14.v: ClassicalDedekindReals.sig_forall_dec, sig_not_dec, FunctionalExtensionality.functional_extensionality_dep, Classical_Prop.classic; the generated Interval goals additionally rest on the PrimInt63/Uint63 primitive-integer axioms of the standard library (recorded per run). Float bounds are certified pointwise, not for all inputs (libm has no specification); bounds listed in harness/props/c14.py.",
+        technique="Coq proof (real analysis over stdlib Reals) + pointwise certified interval enclosures (coq-interval) of the real-valued model against the implementation's float outputs + Q checks evaluated in Coq",
+        ref="DESIGN.md §5 C14"),
+    "C17": dict(
+        text="Machine-checked theorems (no axioms) over an executable model of the five container classes: + adds entry-wise, commutative/associative up to Qeq, defined iff binning (edges and closed side), patch count (and optional members / sum_weights / sample count) agree; * k scales every count, totals and jackknife samples scale by k, DP/LS estimates and their samples are unchanged for k != 0, bools rejected; == reflexive and structural; .bins[I] / .patches[I] (int, negative int, slice, list) select the sub-arrays (patches: the sub-matrix I x I), commute with summation and with sampling, iteration yields the single-index selections in order, out-of-range and empty selections are rejected; refutations document the pinned code (all repaired in /repo). Tie: the real operators and indexers on random dyadic containers of all five classes; result or exception compared inside Coq with the code-path model and with the law side.",
+        note="numpy semantics exercised, not modelled; sums/products exact, ratios within 2^-40; non-finite sampled ratios skipped and counted; numpy-integer index scalars are outside the documented index types and not judged.",
+        technique="Coq proof (list induction, ring/field over Q, Forall2 equivalences) + differential correspondence evaluated in Coq with per-defect deterministic probes",
+        ref="DESIGN.md §5 C17"),
     "C01": dict(
         text="Machine-checked theorems (Coq 8.16, no axioms): (1) the merged-grid counter — cumulative+diff and per-bin+tail dispatch both give the (r_{k-1}, r_k] sums and the nearest-edge slice sum over grid indices a..b equals the pair sum over (r_a, r_b] (limits_sum_exact, nearest_exact, tree_count_exact); (2) pruning is sound in every space with a symmetric distance obeying the triangle inequality (prune_sound_le/_lt; the strict test is refuted at equality); (3) the pruning angle: the maximum over bin centres is always sufficient, the angle at max(zmin, limit) is refuted below the limit; (4) every linked patch pair is visited exactly once, unordered pairs once for an autocorrelation; (5) composition: every cell written by count_pairs equals the specification (count_cell_exact). Tie on every run: L1 the real AngularTree.count against the model and the brute-force pair sum; L3 the real autocorrelate/crosscorrelate (all count kinds, 2-5 patches, 1-3 bins, every unit, poles / RA wrap, low-z, high-z, dense-compact vs sparse-wide, separation weighting) on catalogs created by Catalog.from_dataframe against the model (linkage + iteration + cell writes) AND against the brute-force specification, plus stored weight sums and patch links — all evaluated inside Coq on exact integer squared chords of the implementation's own unit vectors.",
         note="Trusted: Coq kernel+vm_compute; python harness (integer scaling of unit vectors, near-tie filter at 2^-40, failure classification); scipy KDTree exercised (L1) not modelled; angles per scale/bin, merged grid and chord radii taken from the implementation as tables (their correctness is C15/C14); the triangle inequality on the sphere is C14_sphere_triangle. Float rounding at interval ends excluded (counted as near_tie_skipped).",
